@@ -252,6 +252,43 @@ fn wf_space(len: usize, reduced: bool) -> Space {
     expr_space_over(name, g.count(), move |i| g.unrank(i))
 }
 
+/// Deep expressions: the language has no limit on pending operands. For every depth n in 1..=64 and every shape:
+/// n operands then n-1 binary operators (all pending at once), the same right-nested with memory reads, and a
+/// left-leaning chain of the same length that never holds more than two operands.
+fn deep_space() -> Space {
+    const OPS: [&str; 3] = ["+", "-", "*"];
+    const NMAX: u64 = 64;
+    let radices = [NMAX, OPS.len() as u64, 3];
+    let nseq = product(&radices);
+    expr_space_over("expr-deep", nseq, move |i| {
+        let d = unrank(i, &radices);
+        let (n, op, shape) = (d[0] as usize + 1, OPS[d[1] as usize], d[2]);
+        let mut v: Vec<&'static str> = vec![];
+        match shape {
+            0 => {
+                v.extend(std::iter::repeat("3").take(n));
+                v.extend(std::iter::repeat(op).take(n - 1));
+            }
+            1 => {
+                // operands that are registers and the CFA, read through memory at the end
+                for k in 0..n {
+                    v.push(["$a", ".cfa", "8", "$b"][k % 4]);
+                }
+                v.extend(std::iter::repeat(op).take(n - 1));
+                v.push("^");
+            }
+            _ => {
+                v.push("3");
+                for _ in 1..n {
+                    v.push("2");
+                    v.push(op);
+                }
+            }
+        }
+        v
+    })
+}
+
 fn expr_space_over(name: &'static str, nseq: u64, seq: impl Fn(u64) -> Vec<&'static str> + Send + Sync + Clone + 'static) -> Space {
     let n = nseq * HOSTS.len() as u64;
     let gen = move |idx: u64| -> (usize, Vec<&'static str>) {
@@ -800,7 +837,7 @@ fn main() {
         // beyond the all-sequences bound: only stack-valid expressions, one / two tokens longer
         let (wf_full, wf_reduced) = ctx.tier.pick((5usize, 6usize), (6, 7));
         def.extra.insert("wellformed_lengths".into(), json!({"full_value_alphabet": wf_full, "reduced_value_alphabet": wf_reduced, "reduced_values": value_tokens(true)}));
-        def.spaces = vec![expr_space(maxlen), wf_space(wf_full, false), wf_space(wf_reduced, true), struct_space(dlen)];
+        def.spaces = vec![expr_space(maxlen), wf_space(wf_full, false), wf_space(wf_reduced, true), deep_space(), struct_space(dlen)];
         def.spaces.extend(WALK_CPUS.iter().map(walk_space));
         def.finish = Some(Box::new(|total, extra| {
             // every operator must have been part of a successful evaluation, and both result
